@@ -3,7 +3,9 @@ package transport
 
 import (
 	"context"
+	"crypto/rand"
 	"crypto/tls"
+	"encoding/binary"
 	"io"
 	"net"
 	"sync/atomic"
@@ -192,10 +194,22 @@ type StreamIDAllocator struct {
 }
 
 // NewStreamIDAllocator creates a new allocator.
+//
+// The sequence of a connection starts at a random point (odd for the dialer,
+// even for the listener). Agents keep per-stream bookkeeping (relay entries,
+// exit and forward connections, ingress streams) under the bare stream ID, so
+// two peers that both counted 1, 3, 5, ... toward the same agent would share
+// keys there and disturb each other's streams; with unpredictable starting
+// points the ID spaces of different connections do not overlap in practice.
 func NewStreamIDAllocator(isDialer bool) *StreamIDAllocator {
-	start := uint64(2) // even for listener
+	var b [8]byte
+	if _, err := rand.Read(b[:]); err != nil {
+		panic("crypto/rand failed: " + err.Error())
+	}
+	// 62 random bits: nonzero, and far from wrapping around
+	start := (binary.BigEndian.Uint64(b[:])>>2 | 1) << 1 // even for listener
 	if isDialer {
-		start = 1 // odd for dialer
+		start |= 1 // odd for dialer
 	}
 	a := &StreamIDAllocator{
 		isDialer: isDialer,
